@@ -13,7 +13,7 @@ cd $WT
 PYTHONPATH=$WT/src timeout 300 /venv/bin/python $SD/demo.py > /tmp/cf/$NAME.demo_clean.log 2>&1; RC_CLEAN=$?
 git apply $SD/patch.diff; RC_APPLY=$?
 PYTHONPATH=$WT/src timeout 300 /venv/bin/python $SD/demo.py > /tmp/cf/$NAME.demo_patched.log 2>&1; RC_PATCHED=$?
-PYTHONPATH=$WT/src /venv/bin/python -m pytest -q -p no:cacheprovider --timeout=900 tests > /tmp/cf/$NAME.pytest.log 2>&1
+PYTHONPATH=$WT/src /venv/bin/python -m pytest -q -p no:cacheprovider --timeout=3000 tests > /tmp/cf/$NAME.pytest.log 2>&1
 FAILED=$(grep -E "^FAILED" /tmp/cf/$NAME.pytest.log | grep -v "test_flory_schulz\|test_schulz_zimm" | wc -l)
 TAIL=$(tail -1 /tmp/cf/$NAME.pytest.log)
 echo "name=$NAME apply=$RC_APPLY demo_clean=$RC_CLEAN demo_patched=$RC_PATCHED unexpected_test_failures=$FAILED pytest='$TAIL'" > /tmp/cf/$NAME.result
